@@ -22,7 +22,7 @@ Arguments lit x%string.
 Notation length := List.length.
 
 (* ---------------------------------------------------------------- values *)
-Definition path := list str.
+Notation path := (list str) (only parsing).
 Definition path_eqb : path -> path -> bool := list_eqb str_eqb.
 Definition cref := (str * path)%type.            (* __module__, __qualname__ split on "." *)
 Definition cref_eqb (a b : cref) : bool := str_eqb (fst a) (fst b) && path_eqb (snd a) (snd b).
